@@ -119,30 +119,44 @@ def has_workgroup(plan):
 
 # ------------------------------------------------------------------ the pieces
 
+MUST_I = [0, 0xFFFFFFFF, 0x80000000, 0x7FFFFFFF, 1, 31, 32, 33]
+MUST_F = [0x3F000000, 0x4F000000, 0x4F800000, 0x7F800000, 0xBF000000, 0x40200000, 0xCF000001, 0x00000001, 0x7FC00000]
+MUST_PAIRS = [(0, 0), (2, 3), (1, 1), (3, 0), (4, 1), (0, 4), (1, 4), (5, 6), (7, 2), (6, 6)]      # indices into MUST_*
+
+
 def probe_inputs(op, n, rng, count):
-    """operand values for a probe program: boundary pool, different pool values in different lanes"""
+    """operand values for a probe program: designated boundary operands first (0, -1, INT_MIN, INT_MAX, 31/32/33, 0.5,
+    2^31, 2^32, inf, NaN, subnormal; INT_MIN with -1, x with 0, ...), then draws from the boundary pool; for vectors
+    different values go to different lanes"""
     I = mslcorr.I32_POOL
-    F = [b for b in mslcorr.F32_POOL]
-    if op["key"].startswith("sign_f32"):
-        F = [b for b in F if not is_nan(b)]       # WGSL leaves sign(NaN) open; MSL gives 0.0 (DialectChoices.md)
-    if op["key"].startswith("conv_f32_"):
-        F = [b for b in F if not is_nan(b)]       # WGSL leaves i32(NaN) open
+    F = list(mslcorr.F32_POOL)
+    MF = list(MUST_F)
+    if op["key"].startswith(("sign_f32", "conv_f32_")):
+        # WGSL leaves sign(NaN) and i32(NaN)/u32(NaN) open (DialectChoices.md)
+        F = [b for b in F if not is_nan(b)]
+        MF = [b for b in MF if not is_nan(b)]
+    arity = len(op["kinds"])
     out = []
     for c in range(count):
         vals = []
         for i, k in enumerate(op["kinds"]):
             shape = 1 if i in op["scalar_ops"] else n
 
-            def one():
+            def one(lane):
+                must = None
+                if arity == 1 and c + lane < (len(MF) if k == "f32" else len(MUST_I)):
+                    must = c + lane
+                elif arity >= 2 and c < len(MUST_PAIRS) and i < 2:
+                    must = MUST_PAIRS[(c + lane) % len(MUST_PAIRS)][i]
                 if k == "f32":
-                    return {"f": rng.choice(F)}
+                    return {"f": MF[must % len(MF)] if must is not None else rng.choice(F)}
                 if k == "bool":
-                    return {"u": rng.below(2)}
-                bits = rng.choice(I) if rng.chance(5, 6) else rng.below(M32)
+                    return {"u": (c + lane + i) % 2 if c < 4 else rng.below(2)}
+                bits = MUST_I[must % len(MUST_I)] if must is not None else (rng.choice(I) if rng.chance(5, 6) else rng.below(M32))
                 if op["key"].startswith(("extractbits", "insertbits")) and i >= (1 if op["key"].startswith("extract") else 2):
                     bits = rng.choice([0, 1, 5, 31, 32, 33, 16, 0xFFFFFFFF, 27])
                 return {"u" if k == "u32" else "i": bits}
-            vals.append(one() if shape == 1 else {"vec": [one() for _ in range(shape)]})
+            vals.append(one(0) if shape == 1 else {"vec": [one(l) for l in range(shape)]})
         out.append(vals)
     return out
 
@@ -273,6 +287,12 @@ def queue_program(ctx, enums, runner, name, r, setnames, mode, rt, n_inputs, tag
 
 def judge_programs(ctx, runner, cases, srcs, stats):
     seen_layout = set()
+    reported = set()
+
+    def report(what, files, key):
+        if key not in reported:
+            reported.add(key)
+            ctx.violation(what, files=files, key=key)
     for c in cases:
         name = c["name"]
         if "oof" in c:
@@ -312,10 +332,10 @@ def judge_programs(ctx, runner, cases, srcs, stats):
             if c["set"] == "v31_nozero" and has_workgroup(plan):
                 stats["intentional_meaning_change"] += 1      # workgroup memory deliberately left uninitialised
                 continue
-            ctx.violation("program %s (entry point %s, options %s): the emitted MSL %s where WGSL defines the result\ninput: k=%s"
-                          % (name, c["ep"], c["set"], msg, c["inp"]["k"]),
-                          files={"input.wgsl": srcs.get(name, ""), "emitted.msl": c["text"], "input.json": json.dumps(c["inp"])},
-                          key="%s:%s:%s" % (c["tag"], name, msg.split(":")[0] if not msg.startswith("UB") else msg[:40]))
+            report("program %s (entry point %s, options %s): the emitted MSL fails with \"%s\" where WGSL defines the result\ninput: k=%s"
+                   % (name, c["ep"], c["set"], msg, c["inp"]["k"]),
+                   {"input.wgsl": srcs.get(name, ""), "emitted.msl": c["text"], "input.json": json.dumps(c["inp"])},
+                   "%s:%s:%s" % (c["tag"], name, msg.split(":")[0] if not msg.startswith("UB") else msg[:40]))
             stats["disagreements"] += 1
             continue
         if c["set"] == "v31_nozero" and has_workgroup(plan):
@@ -326,16 +346,18 @@ def judge_programs(ctx, runner, cases, srcs, stats):
         stats["distinct"].add((name, c["ep"], c["set"], json.dumps(c["inp"]["globals"], sort_keys=True)[:4000]))
         if d:
             stats["disagreements"] += 1
-            ctx.violation("program %s (entry point %s, options %s): final buffer contents differ between the IR semantics and the emitted MSL\n%s"
-                          % (name, c["ep"], c["set"], d),
-                          files={"input.wgsl": srcs.get(name, ""), "emitted.msl": c["text"], "input.json": json.dumps(c["inp"])},
-                          key="%s:%s:%s" % (c["tag"], name, policy_class(c["set"])))
+            report("program %s (entry point %s, options %s): final buffer contents differ between the IR semantics and the emitted MSL\n%s"
+                   % (name, c["ep"], c["set"], d),
+                   {"input.wgsl": srcs.get(name, ""), "emitted.msl": c["text"], "input.json": json.dumps(c["inp"])},
+                   "%s:%s:%s" % (c["tag"], name, policy_class(c["set"])))
         elif len(ctx.cov["samples"]) < 5 and stats["compared"] % 37 == 1:
             ctx.sample({"program": name, "entry": c["ep"], "options": c["set"], "agree_on_buffers": [plan.ir["GlobalVariables"][h]["Name"] for h in plan.storage_handles()]})
 
 
 def policy_class(setname):
-    return setname
+    """the part of the option set a known disagreement is keyed by: the buffer bounds-check policy"""
+    o = mslcorr.OPTSETS.get(setname, {})
+    return "buffer=%s" % o.get("buffer", "rzsw")
 
 
 def missing_entries():
@@ -400,8 +422,11 @@ def run(ctx):
     if ctx.thorough:
         probes = all_probes
     else:
-        probes = [p for p in all_probes if p[2] == 1 or (p[0].startswith(mslprobe.REDUCING) and p[2] == 2)]
-    probe_cases, probe_srcs = run_probes(ctx, tools, enums, runner, probes, ctx.scale(6, 40))
+        # all scalar entries, the reductions, and a seed-rotated quarter of the vector entries
+        import hashlib
+        pick = lambda k: (hashlib.sha256(k.encode()).digest()[0] + ctx.seed) % 4 == 0
+        probes = [p for p in all_probes if p[2] == 1 or (p[0].startswith(mslprobe.REDUCING) and p[2] == 2) or (p[2] > 1 and pick(p[0]))]
+    probe_cases, probe_srcs = run_probes(ctx, tools, enums, runner, probes, ctx.scale(9, 40))
 
     # ---- whole programs
     setnames_all = list(mslcorr.OPTSETS)
@@ -574,6 +599,7 @@ def queue_policies(ctx, tools, enums, runner, srcs):
 
 
 def judge_policies(ctx, runner, cases, srcs, stats):
+    reported = set()
     for c in cases:
         if "oof" in c:
             stats["out_of_fragment"] += 1
@@ -593,18 +619,22 @@ def judge_policies(ctx, runner, cases, srcs, stats):
                 stats["out_of_fragment"] += 1
                 continue
             stats["disagreements"] += 1
-            ctx.violation("bounds-check policy %s (options %s), program %s: with hostile indices the emitted MSL runs into \"%s\"\nindices: %s"
-                          % (c["policy"], c["set"], name, msg, index_vec(c)),
-                          files=files, key="policy:%s:%s:%s" % (c["policy"], name, "ub" if msg.startswith("UB") else "fail"))
+            key = "policy:%s:%s:%s" % (c["policy"], name, "ub" if msg.startswith("UB") else "fail")
+            if key not in reported:
+                reported.add(key)
+                ctx.violation("bounds-check policy %s (options %s), program %s: with hostile indices the emitted MSL runs into \"%s\"\nindices: %s"
+                              % (c["policy"], c["set"], name, msg, index_vec(c)), files=files, key=key)
             continue
         stats["compared"] += 1
         stats["distinct"].add((name, c["set"], json.dumps(c["inp"]["globals"], sort_keys=True)[:3000]))
         d = compare_buffers(c["plan"], a, b)
         if d:
             stats["disagreements"] += 1
-            ctx.violation("bounds-check policy %s (options %s), program %s: result differs from the policy value\n%s\nindices: %s"
-                          % (c["policy"], c["set"], name, d, index_vec(c)),
-                          files=files, key="policy:%s:%s:value" % (c["policy"], name))
+            key = "policy:%s:%s:value" % (c["policy"], name)
+            if key not in reported:
+                reported.add(key)
+                ctx.violation("bounds-check policy %s (options %s), program %s: result differs from the policy value\n%s\nindices: %s"
+                              % (c["policy"], c["set"], name, d, index_vec(c)), files=files, key=key)
 
 
 def index_vec(c):
